@@ -98,9 +98,9 @@ def run_impl(pcs, tag, wants=WANTS, timeout=900):
     return cases, impl
 
 
-def correspond(ctx, name, pcs, tag):
+def correspond(ctx, name, pcs, tag, timeout=900):
     """implementation vs Coq model on the same cases; returns (cases, impl results by index)"""
-    cases, impl = run_impl(pcs, tag)
+    cases, impl = run_impl(pcs, tag, timeout=timeout)
     mcases = [ppmodel.model_case(c, impl.get(c.id)) for c in cases]
     model = run_model("pp", mcases, tag, 900)
     a = {c.id: ppmodel.observable(impl.get(c.id)) for c in cases}
